@@ -71,4 +71,62 @@ mod verif_kani {
         let u2 = Uri::from_static("http://c.a.b/x");
         assert!(!p.matches(&u2));
     }
+
+    // ---- C26 enforcement ----
+    static mut ALLOW: bool = false;
+    fn stub_is_uri_allowed(_patterns: &[HostPattern], _uri: &Uri) -> bool { unsafe { ALLOW } }
+    fn stub_sanitize(_v: &str) -> String { String::new() }
+    struct Count { calls: AtomicUsize }
+    impl SyncHttpResolver for Count {
+        fn http_resolve(&self, _request: Request<Vec<u8>>) -> Result<Response<Box<dyn Read>>, HttpResolverError> {
+            self.calls.fetch_add(1, Ordering::SeqCst);
+            Err(HttpResolverError::SyncHttpResolverNotImplemented)
+        }
+    }
+
+    #[kani::proof]
+    #[kani::stub(is_uri_allowed, stub_is_uri_allowed)]
+    #[kani::stub(crate::http::sanitize_for_log, stub_sanitize)]
+    #[kani::unwind(3)]
+    fn allow_list_enforced() {
+        let allow: bool = kani::any();
+        let has_list: bool = kani::any();
+        unsafe { ALLOW = allow; }
+        let mut r = RestrictedResolver::new(Count { calls: AtomicUsize::new(0) });
+        if has_list { r.set_allowed_hosts(Some(Vec::new())); }
+        let res = r.http_resolve(Request::new(Vec::new()));
+        let calls = r.inner.calls.load(Ordering::SeqCst);
+        if !has_list || allow {
+            assert!(calls == 1);
+            assert!(matches!(res, Err(HttpResolverError::SyncHttpResolverNotImplemented)));
+        } else {
+            assert!(calls == 0);
+            assert!(matches!(res, Err(HttpResolverError::UriDisallowed { .. })));
+        }
+        std::mem::forget(res);
+    }
+
+    // ---- C27 host string kernels ----
+    #[kani::proof]
+    #[kani::unwind(6)]
+    fn obfuscated_ip_spec() {
+        const L: usize = 4;
+        let b: [u8; L] = kani::any();
+        let n: usize = kani::any();
+        kani::assume(n <= L);
+        let mut i = 0; while i < L { kani::assume(b[i] < 0x80); i += 1; }
+        let s = std::str::from_utf8(&b[..n]).unwrap();
+        let got = looks_like_obfuscated_ip(s);
+        // spec: non-empty and (all digits/dots, or some dot-separated label starts with 0x / 0X)
+        let mut all_num = n > 0; let mut hexlabel = false; let mut at_label_start = true;
+        let mut k = 0;
+        while k < n {
+            let c = b[k];
+            if !(c.is_ascii_digit() || c == b'.') { all_num = false; }
+            if at_label_start && c == b'0' && k + 1 < n && (b[k + 1] == b'x' || b[k + 1] == b'X') { hexlabel = true; }
+            at_label_start = c == b'.';
+            k += 1;
+        }
+        assert!(got == (n > 0 && (all_num || hexlabel)));
+    }
 }
